@@ -237,21 +237,33 @@ theorem gr_fatal (s : State) (fuel : Nat) (h : s.vars 15 ≤ 0) (hours : s.vars 
   rw [loop]; try dsimp only
   rw [hc, hb']; rfl
 
+/-- the size the growth loop ends with (the same recursion as `Buf.growTo` of the hand-written buffer machine) -/
+def growSize (size p : Nat) : Nat → Nat
+  | 0 => size
+  | fuel + 1 => if size ≥ p + 2 then size else growSize (if size = 0 then 1 else size * 2) p fuel
+
+theorem growSize_done (size p : Nat) (h : p + 2 ≤ size) : ∀ f, growSize size p f = size
+  | 0 => rfl
+  | f + 1 => by simp [growSize, h]
+
 theorem gr_loop : ∀ (d : Nat) (s : State) (fuel : Nat), 1 ≤ s.vars 4 → s.vars 7 ≠ 0 → s.vars 15 = s.vars 4 - s.vars 12 - 1 →
-    (s.arr.length : Int) = s.vars 4 + 2 → (s.vars 12 + 2 - s.vars 4).toNat ≤ d → d + 1 ≤ fuel →
-    ∃ s', loop (fun s' => grCond.eval s') (fun s' => grBody.run s') fuel s = (s', .normal) ∧ Grown s s' := by
+    (s.arr.length : Int) = s.vars 4 + 2 → (s.vars 12 + 2 - s.vars 4).toNat ≤ d → d + 1 ≤ fuel → 0 ≤ s.vars 12 →
+    ∃ s', loop (fun s' => grCond.eval s') (fun s' => grBody.run s') fuel s = (s', .normal) ∧ Grown s s' ∧
+      ∀ f, d ≤ f → (s'.vars 4).toNat = growSize (s.vars 4).toNat (s.vars 12).toNat f := by
   intro d
   induction d with
   | zero =>
-    intro s fuel hpos _ h15 hlen hd hf
+    intro s fuel hpos _ h15 hlen hd hf h12
     obtain ⟨f, rfl⟩ : ∃ f, fuel = f + 1 := ⟨fuel - 1, by omega⟩
     have hroom : 1 ≤ s.vars 15 := by omega
-    exact ⟨s, gr_skip s f hroom, ⟨fun _ _ _ _ _ _ => rfl, Int.le_refl _, h15, hroom, hlen, ⟨[], by simp⟩, rfl⟩⟩
+    exact ⟨s, gr_skip s f hroom, ⟨fun _ _ _ _ _ _ => rfl, Int.le_refl _, h15, hroom, hlen, ⟨[], by simp⟩, rfl⟩,
+      fun f' _ => (growSize_done _ _ (by omega) f').symm⟩
   | succ d ih =>
-    intro s fuel hpos hours h15 hlen hd hf
+    intro s fuel hpos hours h15 hlen hd hf h12
     obtain ⟨f, rfl⟩ : ∃ f, fuel = f + 1 := ⟨fuel - 1, by omega⟩
     by_cases hroom : 1 ≤ s.vars 15
-    · exact ⟨s, gr_skip s f hroom, ⟨fun _ _ _ _ _ _ => rfl, Int.le_refl _, h15, hroom, hlen, ⟨[], by simp⟩, rfl⟩⟩
+    · exact ⟨s, gr_skip s f hroom, ⟨fun _ _ _ _ _ _ => rfl, Int.le_refl _, h15, hroom, hlen, ⟨[], by simp⟩, rfl⟩,
+        fun f' _ => (growSize_done _ _ (by omega) f').symm⟩
     · have hc : grCond.eval s = some 1 := by
         have : s.vars 15 ≤ 0 := by omega
         simp [grCond, Ex.eval, bind, Option.bind, pure, b2i, this]
@@ -262,9 +274,9 @@ theorem gr_loop : ∀ (d : Nat) (s : State) (fuel : Nat), 1 ≤ s.vars 4 → s.v
       have hglen : ((growOnce s).arr.length : Int) = s.vars 4 * 2 + 2 := by
         simp only [growOnce, List.length_append, List.length_replicate]
         omega
-      obtain ⟨s', hrun, hG⟩ := ih (growOnce s) f (by rw [hg4]; omega) (by rw [hg7]; exact hours)
-        (by rw [hg15, hg4, hg12]) (by rw [hglen, hg4]) (by rw [hg12, hg4]; omega) (by omega)
-      refine ⟨s', ?_, ?_⟩
+      obtain ⟨s', hrun, hG, hsz⟩ := ih (growOnce s) f (by rw [hg4]; omega) (by rw [hg7]; exact hours)
+        (by rw [hg15, hg4, hg12]) (by rw [hglen, hg4]) (by rw [hg12, hg4]; omega) (by omega) (by rw [hg12]; exact h12)
+      refine ⟨s', ?_, ?_, ?_⟩
       · rw [loop]; try dsimp only
         rw [hc, grBody_run s hours hpos]
         have h1 : ((1 : Int) != 0) = true := by decide
@@ -281,6 +293,13 @@ theorem gr_loop : ∀ (d : Nat) (s : State) (fuel : Nat), 1 ≤ s.vars 4 → s.v
         · obtain ⟨e, he⟩ := hG.ext
           exact ⟨List.replicate ((s.vars 4 * 2 + 2).toNat - s.arr.length) garbage ++ e, by rw [he]; simp [growOnce]⟩
         · rw [hG.log]; rfl
+      · intro f' hf'
+        obtain ⟨f'', rfl⟩ : ∃ f'', f' = f'' + 1 := ⟨f' - 1, by omega⟩
+        have hlt : ¬ ((s.vars 4).toNat ≥ (s.vars 12).toNat + 2) := by omega
+        have hne : (s.vars 4).toNat ≠ 0 := by omega
+        have h2 : (s.vars 4 * 2).toNat = (s.vars 4).toNat * 2 := by omega
+        rw [hsz f'' (by omega), hg4, hg12, h2]
+        simp [growSize, hlt, hne]
 
 
 /-! ### asking the reader -/
@@ -497,8 +516,8 @@ theorem finish_filled (s s6 : State) (n : Nat) (X : List Int) (h0 : s6.vars 0 = 
     (hX : X.take (ntm s).toNat = (s.arr.drop (s.vars 1).toNat).take (ntm s).toNat) (hXl : X.length = s6.arr.length)
     (hmv : ((s.arr.drop (s.vars 1).toNat).take (ntm s).toNat).length = (ntm s).toNat)
     (hlog : s6.log = s.log) :
-    ∃ s', fin.run s6 = (s', .returned (retOf s n)) ∧ Filled s s' n := by
-  refine ⟨finish (verdict s6), ?_, ?_⟩
+    ∃ s', fin.run s6 = (s', .returned (retOf s n)) ∧ Filled s s' n ∧ s'.vars 4 = s6.vars 4 := by
+  refine ⟨finish (verdict s6), ?_, ?_, ?_⟩
   · rw [fin_run s6 (by omega) (by omega) (by omega) hlen, verdict_14, h2, h12, h9]
     simp only [retOf]
     by_cases hn : n = 0
@@ -535,19 +554,25 @@ theorem finish_filled (s s6 : State) (n : Nat) (X : List Int) (h0 : s6.vars 0 = 
         simp [hn, this]
 
 
+  · simp [finish, setVar_vars, verdict_vars s6 4 (by decide) (by decide)]
+
 theorem grow_run (s : State) (hpos : 1 ≤ s.vars 4) (h15 : s.vars 15 = s.vars 4 - s.vars 12 - 1)
-    (hlen : (s.arr.length : Int) = s.vars 4 + 2) (hle : s.vars 12 ≤ s.vars 4) (hcan : s.vars 7 ≠ 0 ∨ 1 ≤ s.vars 15) :
-    ∃ s', (St.while_ grCond grBody).run s = (s', .normal) ∧ Grown s s' := by
+    (hlen : (s.arr.length : Int) = s.vars 4 + 2) (hle : s.vars 12 ≤ s.vars 4) (hcan : s.vars 7 ≠ 0 ∨ 1 ≤ s.vars 15)
+    (h12 : 0 ≤ s.vars 12) :
+    ∃ s', (St.while_ grCond grBody).run s = (s', .normal) ∧ Grown s s' ∧
+      (s'.vars 4).toNat = growSize (s.vars 4).toNat (s.vars 12).toNat ((s.vars 12).toNat + 2) := by
   have e : (St.while_ grCond grBody).run s =
       loop (fun s' => grCond.eval s') (fun s' => grBody.run s') (s.arr.length + 3) s := by simp [St.run]
   rw [e]
   by_cases hroom : 1 ≤ s.vars 15
-  · exact ⟨s, gr_skip s _ hroom, ⟨fun _ _ _ _ _ _ => rfl, Int.le_refl _, h15, hroom, hlen, ⟨[], by simp⟩, rfl⟩⟩
+  · exact ⟨s, gr_skip s _ hroom, ⟨fun _ _ _ _ _ _ => rfl, Int.le_refl _, h15, hroom, hlen, ⟨[], by simp⟩, rfl⟩,
+      (growSize_done _ _ (by omega) _).symm⟩
   · have hours : s.vars 7 ≠ 0 := by
       rcases hcan with h | h
       · exact h
       · exact absurd h hroom
-    exact gr_loop (s.arr.length + 2) s _ hpos hours h15 hlen (by omega) (by omega)
+    obtain ⟨s', hrun, hG, hsz⟩ := gr_loop 2 s (s.arr.length + 3) hpos hours h15 hlen (by omega) (by omega) h12
+    exact ⟨s', hrun, hG, hsz _ (by omega)⟩
 
 theorem grow_fatal (s : State) (h15 : s.vars 15 ≤ 0) (hours : s.vars 7 = 0) :
     ∃ s', (St.while_ grCond grBody).run s = (s', .fatal 1) ∧ s'.log = s.log := by
@@ -600,7 +625,7 @@ theorem nextBuf_nofill (s : State) (hP : Pre s) (h5 : s.vars 5 = 0) :
     · intro y h0 h1; simp [setVar_vars, h0, h1]
 
 theorem rest_eof_pending (s sM : State) (hP : Pre s) (hM : MovedLike s sM) (h6 : s.vars 6 = 2) :
-    ∃ s', (St.seq fill fin).run sM = (s', .returned (retOf s 0)) ∧ Filled s s' 0 := by
+    ∃ s', (St.seq fill fin).run sM = (s', .returned (retOf s 0)) ∧ Filled s s' 0 ∧ s'.vars 4 = s.vars 4 := by
   have ⟨hlen, hpos, htn, htl, hcl, hnl, _⟩ := hP
   have hmt := hM.take; have hml := hM.mlen; have hmlen := hM.len
   have mv := fun y (h : y ≠ 10 ∧ y ≠ 11 ∧ y ≠ 12 ∧ y ≠ 13) => hM.vars y h.1 h.2.1 h.2.2.1 h.2.2.2
@@ -609,6 +634,10 @@ theorem rest_eof_pending (s sM : State) (hP : Pre s) (hM : MovedLike s sM) (h6 :
     simp [fill, eofp, St.run, Ex.eval, bind, Option.bind, pure, setVar_vars, b2i, this]
   rw [seq_normal hf]
   have hk : 0 ≤ ntm s := by unfold ntm; omega
+  suffices h : ∃ s', fin.run (setVar (setVar sM 2 0) 3 0) = (s', .returned (retOf s 0)) ∧ Filled s s' 0 ∧
+      s'.vars 4 = (setVar (setVar sM 2 0) 3 0).vars 4 by
+    obtain ⟨s', h1, h2, h3⟩ := h
+    exact ⟨s', h1, h2, by rw [h3]; simp [setVar_vars, mv 4 (by decide)]⟩
   apply finish_filled s _ 0 sM.arr
   · simp [setVar_vars, mv 0 (by decide)]
   · simp [setVar_vars, mv 9 (by decide)]
@@ -627,16 +656,23 @@ theorem rest_eof_pending (s sM : State) (hP : Pre s) (hM : MovedLike s sM) (h6 :
 
 /-- **the end of the input was seen before** (YY_BUFFER_EOF_PENDING): the reader is not asked again -/
 theorem nextBuf_eof_pending (s : State) (hP : Pre s) (h5 : s.vars 5 ≠ 0) (h6 : s.vars 6 = 2) :
-    ∃ s', nextBuf.run s = (s', .returned (retOf s 0)) ∧ Filled s s' 0 := by
+    ∃ s', nextBuf.run s = (s', .returned (retOf s 0)) ∧ Filled s s' 0 ∧ s'.vars 4 = s.vars 4 := by
   rw [nextBuf_shape, prefix_run s hP h5]
   exact rest_eof_pending s (moved s) hP (moved_like s hP) h6
 
 theorem afterRead_vars (s : State) (y : Nat) (h15 : y ≠ 15) (h2 : y ≠ 2) (h3 : y ≠ 3) : (afterRead s).vars y = s.vars y := by
   simp [afterRead, setVar_vars, h15, h2, h3]
 
+/-- exactly how much is asked for and how far the buffer grew: the room left after doubling the size until one byte fits,
+    at most YY_READ_BUF_SIZE -/
+structure Exact (s s' : State) (m : Int) : Prop where
+  asked : m = min (s.vars 18) (s'.vars 4 - ntm s - 1)
+  size : (s'.vars 4).toNat = growSize (s.vars 4).toNat (ntm s).toNat ((ntm s).toNat + 2)
+
 theorem rest_read (s sM : State) (hP : Pre s) (hM : MovedLike s sM) (h6 : s.vars 6 ≠ 2)
     (hcan : s.vars 7 ≠ 0 ∨ 1 ≤ s.vars 4 - ntm s - 1) :
-    ∃ s' m, 1 ≤ m ∧ m ≤ s.vars 18 ∧ (St.seq fill fin).run sM = (s', .returned (retOf s (got s m))) ∧ Filled s s' (got s m) := by
+    ∃ s' m, 1 ≤ m ∧ m ≤ s.vars 18 ∧ (St.seq fill fin).run sM = (s', .returned (retOf s (got s m))) ∧ Filled s s' (got s m) ∧
+      Exact s s' m := by
   have ⟨hlen, hpos, htn, htl, hcl, hnl, hrbs⟩ := hP
   have hmt := hM.take; have hml := hM.mlen; have hmlen := hM.len
   have moved_12 := hM.v12
@@ -651,10 +687,12 @@ theorem rest_read (s sM : State) (hP : Pre s) (hM : MovedLike s sM) (h6 : s.vars
   have h4run : (St.assign 15 (.sub (.sub (.var 4) (.var 12)) (.lit 1))).run sM =
       (setVar sM 15 (s.vars 4 - ntm s - 1), .normal) := by
     simp [St.run, Ex.eval, bind, Option.bind, pure, mv4, moved_12]
-  obtain ⟨s5, hgrow, hG⟩ := grow_run (setVar sM 15 (s.vars 4 - ntm s - 1))
+  obtain ⟨s5, hgrow, hG, hgsz⟩ := grow_run (setVar sM 15 (s.vars 4 - ntm s - 1))
     (by simp [setVar_vars, mv4]; exact hpos) (by simp [setVar_vars, mv4, moved_12])
     (by simp [setVar_vars, mv4, hmlen]; exact hlen) (by simp [setVar_vars, mv4, moved_12]; exact hkle)
-    (by simp [setVar_vars, mv7]; exact hcan)
+    (by simp [setVar_vars, mv7]; exact hcan) (by simp [setVar_vars, moved_12]; exact hk)
+  have hgsz' : (s5.vars 4).toNat = growSize (s.vars 4).toNat (ntm s).toNat ((ntm s).toNat + 2) := by
+    simpa [setVar_vars, mv4, moved_12] using hgsz
   have fr : ∀ y, y ≠ 15 → y ≠ 8 → y ≠ 4 → y ≠ 17 → y ≠ 16 → y ≠ 10 → y ≠ 11 → y ≠ 12 → y ≠ 13 → s5.vars y = s.vars y := by
     intro y a b c d e f g h i
     rw [hG.frame y a b c d e]
@@ -700,9 +738,12 @@ theorem rest_read (s sM : State) (hP : Pre s) (hM : MovedLike s sM) (h6 : s.vars
     hk
     (by rw [afterRead_vars s5 4 (by decide) (by decide) (by decide)]; exact s5_4)
     ?_ ?_ ?_ hX ?_ hml ?_
-  · obtain ⟨s', hr1, hr2⟩ := hfin
+  · obtain ⟨s', hr1, hr2, hr3⟩ := hfin
     rw [hgot] at hr1 hr2
-    exact ⟨s', ask s5, hask1, hask2, hr1, hr2⟩
+    rw [afterRead_vars s5 4 (by decide) (by decide) (by decide)] at hr3
+    refine ⟨s', ask s5, hask1, hask2, hr1, hr2, ?_, ?_⟩
+    · rw [hr3]; have := hG.ntr; unfold ask; rw [s5_18, s5_12] at *; split <;> omega
+    · rw [hr3]; exact hgsz'
   · -- the length is unchanged by the read
     have hl : (afterRead s5).arr.length = s5.arr.length := by
       have := hG.len; have := hG.ntr
@@ -721,7 +762,8 @@ theorem rest_read (s sM : State) (hP : Pre s) (hM : MovedLike s sM) (h6 : s.vars
     unfinished token left no room; what it delivers is appended to that token -/
 theorem nextBuf_read (s : State) (hP : Pre s) (h5 : s.vars 5 ≠ 0) (h6 : s.vars 6 ≠ 2)
     (hcan : s.vars 7 ≠ 0 ∨ 1 ≤ s.vars 4 - ntm s - 1) :
-    ∃ s' m, 1 ≤ m ∧ m ≤ s.vars 18 ∧ nextBuf.run s = (s', .returned (retOf s (got s m))) ∧ Filled s s' (got s m) := by
+    ∃ s' m, 1 ≤ m ∧ m ≤ s.vars 18 ∧ nextBuf.run s = (s', .returned (retOf s (got s m))) ∧ Filled s s' (got s m) ∧
+      Exact s s' m := by
   rw [nextBuf_shape, prefix_run s hP h5]
   exact rest_read s (moved s) hP (moved_like s hP) h6 hcan
 
@@ -762,9 +804,10 @@ structure Correct (prog : St) : Prop where
   nofill : ∀ s, Pre s → s.vars 5 = 0 →
     ∃ s', prog.run s = (s', .returned (if s.vars 0 - s.vars 1 - s.vars 9 = 1 then 1 else 2)) ∧ s'.arr = s.arr ∧
       s'.log = s.log ∧ ∀ y, y ≠ 10 → y ≠ 11 → s'.vars y = s.vars y
-  eof_pending : ∀ s, Pre s → s.vars 5 ≠ 0 → s.vars 6 = 2 → ∃ s', prog.run s = (s', .returned (retOf s 0)) ∧ Filled s s' 0
+  eof_pending : ∀ s, Pre s → s.vars 5 ≠ 0 → s.vars 6 = 2 →
+    ∃ s', prog.run s = (s', .returned (retOf s 0)) ∧ Filled s s' 0 ∧ s'.vars 4 = s.vars 4
   read : ∀ s, Pre s → s.vars 5 ≠ 0 → s.vars 6 ≠ 2 → (s.vars 7 ≠ 0 ∨ 1 ≤ s.vars 4 - ntm s - 1) →
-    ∃ s' m, 1 ≤ m ∧ m ≤ s.vars 18 ∧ prog.run s = (s', .returned (retOf s (got s m))) ∧ Filled s s' (got s m)
+    ∃ s' m, 1 ≤ m ∧ m ≤ s.vars 18 ∧ prog.run s = (s', .returned (retOf s (got s m))) ∧ Filled s s' (got s m) ∧ Exact s s' m
   overflow : ∀ s, Pre s → s.vars 5 ≠ 0 → s.vars 6 ≠ 2 → s.vars 7 = 0 → s.vars 4 - ntm s - 1 ≤ 0 →
     ∃ s', prog.run s = (s', .fatal 1) ∧ s'.log = s.log
 
@@ -817,7 +860,7 @@ theorem Correct.delivered_is_scanned {prog : St} (hC : Correct prog) (s : State)
     ∃ (s' : State) (n : Nat), 1 ≤ n ∧ (n : Int) ≤ s.vars inLen ∧ prog.run s = (s', .returned 0) ∧
       s'.arr.take ((ntm s).toNat + n + 2) = (s.arr.drop (s.vars 1).toNat).take (ntm s).toNat ++ chunk s n ++ [0, 0] ∧
       s'.vars 2 = ntm s + n ∧ s'.vars 1 = 0 := by
-  obtain ⟨s', m, hm, _, h, hF⟩ := hC.read s hP h5 h6 hcan
+  obtain ⟨s', m, hm, _, h, hF, _⟩ := hC.read s hP h5 h6 hcan
   have hg : 1 ≤ got s m := by unfold got; omega
   refine ⟨s', got s m, hg, by unfold got; omega, ?_, hF.data, hF.nchars, hF.text⟩
   rw [h]; simp [retOf]; omega
